@@ -124,6 +124,23 @@ def gen_failover(scn, rng):
     return [h + [('CrashRestart', [k]), ('Restart', [])] for k in range(1, 9)]
 
 
+def gen_moves(scn, rng):
+    """Steady-state moves: instances placed, their server dies and retention runs
+    out (or the partition changes), the live master's next cycle moves them and
+    is cut at every storage write."""
+    napps = rng.randrange(1, len(scn['apps']) + 1)
+    h = [('CreateApp', [scn['apps'][j], rng.randrange(len(scn['aprofiles'])) + 1])
+         for j in range(napps)]
+    h.append(('Cycle', []))
+    servers = sorted(s for s, k in scn['server_init'].items() if k)
+    for s in rng.sample(servers, rng.randrange(1, len(servers))):
+        h.append(('NodeDown', [s]))
+    if rng.random() < 0.4:
+        h.append(('SetAllocs', [rng.randrange(len(scn['allocsets'])) + 1]))
+    h.append(('Tick', [rng.choice([3, 6, 6])]))
+    return [h + [('CrashCycle', [k]), ('Restart', [])] for k in range(1, 7)]
+
+
 def run(ctx, prop):
     me, mcyc = (4, 3) if ctx.quick else (5, 3)
     mod, cfg, files = mc_cfg(max_events=me, max_cycles=mcyc, invariants=INV[prop])
@@ -158,6 +175,9 @@ def run(ctx, prop):
         for _ in range(30 if ctx.quick else 300):
             for hc in gen_failover(scn, rng):
                 hist.append(('failover', hc))
+        for _ in range(20 if ctx.quick else 300):
+            for hc in gen_moves(scn, rng):
+                hist.append(('moves', hc))
     if prop == 'C10' and not ctx.quick:
         for src, h in list(hist)[:150]:
             for hc in all_cuts(h):
